@@ -357,3 +357,91 @@ class RandGen:
 def seeded_models(seed, n, maxd=3, **kw):
     g = RandGen(seed)
     return [{'fam': 'M(%d)' % maxd, 'profile': 'seed%d' % seed, 'model': g.gen_model(maxd=maxd, **kw)} for _ in range(n)]
+
+
+# ------------------------------------------------------------------ L(n,m): linear models given directly
+LKINDS_CONT = [D('NNReal', 0, 'inf'), D('Real', '-inf', 'inf'), D('Real', -2, 3), D('Real', '-inf', 3), D('NNReal', 1, 4), D('Real', 1, 'inf')]
+LKINDS_INT = [D('Boolean'), D('Int', -1, 2), D('Int', 0, 3)]
+
+
+def lm_spec(kinds, rows, obj, dir_, off=0, names=None):
+    vs = [['x%d' % i, k] for i, k in enumerate(kinds)]
+    rs = []
+    for i, (a, c, b) in enumerate(rows):
+        r = {'a': [fstr(x) for x in a], 'c': c, 'b': fstr(b)}
+        if names and names[i]:
+            r['name'] = names[i]
+        rs.append(r)
+    m = {'vars': vs, 'rows': rs, 'obj': [fstr(x) for x in obj], 'dir': dir_}
+    if off:
+        m['off'] = fstr(off)
+    return m
+
+
+def l_exhaustive(cont_only=False, level=0):
+    """every linear model with n+m <= 3 over a reduced alphabet"""
+    kinds = LKINDS_CONT[:4] if cont_only else LKINDS_CONT[:4] + LKINDS_INT[:2]
+    if level:
+        kinds = LKINDS_CONT if cont_only else LKINDS_CONT + LKINDS_INT
+    A = [1, -1, 0, 2] if not level else [1, -1, 0, 2, 0.5]
+    B = [0, 1, -1] if not level else [0, 1, -1, 2.5]
+    CM = ['<=', '>=', '=']
+    OB = [1, -1, 0]
+    out = []
+    # n=1, m in 0..2
+    for k in kinds:
+        for o in OB:
+            for d in ('min', 'max'):
+                out.append(lm_spec([k], [], [o], d))
+                for a, c, b in itertools.product(A, CM, B):
+                    out.append(lm_spec([k], [([a], c, b)], [o], d))
+        rows1 = list(itertools.product(A[:3], CM, B))
+        for r1, r2 in itertools.combinations_with_replacement(rows1, 2):
+            for o, d in ((1, 'min'), (1, 'max'), (-1, 'min')):
+                out.append(lm_spec([k], [([r1[0]], r1[1], r1[2]), ([r2[0]], r2[1], r2[2])], [o], d))
+    # n=2, m in 0..1
+    for k1, k2 in itertools.product(kinds, repeat=2):
+        for (o1, o2), d in itertools.product([(1, 1), (1, -1), (-1, 0), (0, 1)], ('min', 'max')):
+            out.append(lm_spec([k1, k2], [], [o1, o2], d))
+            for a1, a2, c, b in itertools.product(A, A, CM, B):
+                out.append(lm_spec([k1, k2], [([a1, a2], c, b)], [o1, o2], d))
+    # n=3, m=0
+    for ks in itertools.product(kinds[:4], repeat=3):
+        for d in ('min', 'max'):
+            out.append(lm_spec(list(ks), [], [1, -1, 0.5], d))
+    return out
+
+
+def l_seeded(seed, n, cont_only=False, maxn=3, maxm=3, coefs=None, rhss=None, named=False, tiny=False, offsets=False, satisfy=False):
+    r = random.Random(seed)
+    coefs = coefs or [0, 1, -1, 2, -2, 0.5, 3, -0.5, 4, 1.5]
+    rhss = rhss or [0, 1, -1, 2, -2, 3, 0.5, 4, -3, 2.5]
+    if tiny:
+        rhss = rhss + [2.0 ** -20, -2.0 ** -20, 2.0 ** -10, -2.0 ** -10]
+    kinds = LKINDS_CONT if cont_only else LKINDS_CONT + LKINDS_INT + [D('Boolean')]
+    out = []
+    for _ in range(n):
+        nv = r.randint(1, maxn)
+        nr = r.randint(0 if not named else 1, maxm)
+        ks = [r.choice(kinds) for _ in range(nv)]
+        rows = []
+        for i in range(nr):
+            x = r.random()
+            if x < 0.06:
+                a = [0] * nv          # empty row: 0 cmp b
+            elif x < 0.12 and rows:
+                a = list(rows[-1][0])  # duplicate / parallel row
+            else:
+                a = [r.choice(coefs) for _ in range(nv)]
+            rows.append((a, r.choice(['<=', '>=', '=', '<=', '>=']), r.choice(rhss)))
+        obj = [r.choice([0, 1, -1, 2, -2, 0.5, 3]) for _ in range(nv)]
+        dirs = ['min', 'max'] + (['solve'] if satisfy else [])
+        names = None
+        if named:
+            names = [('r%d' % i) if r.random() < 0.8 else '' for i in range(nr)]
+        off = r.choice([0, 0, 1.5, -2]) if offsets else 0
+        d = r.choice(dirs)
+        if d == 'solve':
+            obj = [0] * nv   # a satisfy model has no objective function
+        out.append(lm_spec(ks, rows, obj, d, off, names))
+    return out
